@@ -160,13 +160,22 @@ def build_cases(tier, seed):
         step = 10
         for j, lo in enumerate(range(0, 320, step)):
             cases.append({"engine": "c14_sweep", "id": f"C14-denver-all{j}", "seed": seed * 1000 + 500 + j, "net": {"type": "denver"}, "all_pairs": [lo, lo + step]})
+    # every route handed out during scenario runs (hostile control re-instructs vehicles that are under way)
+    from hivemon.checks.common import BUILTIN, hostile_stack, trace_case
+
+    n, steps = (16, 150) if tier == "quick" else (160, 400)
+    for i in range(n):
+        s = seed * 100000 + 14000 + i
+        prof = {"network": ["grid", "denver", "grid", "grid"][i % 4], "n_vehicles": (4, 12), "n_requests": (40, 200), "p_human": 0.3}
+        ctrl = BUILTIN if i % 4 == 3 else hostile_stack(p=0.25, builtin=True, kinds=["DispatchBase", "DispatchStation", "Reposition", "DispatchTrip", "Idle"])
+        cases.append(trace_case("C14", i, s, prof, ctrl, steps, ["C14R"]))
     if tier == "thorough":
         for j in range(16):
             cases.append({"engine": "c14_sweep", "id": f"C14-manhattan{j}", "seed": seed * 1000 + 900 + j, "net": {"type": "manhattan"}, "n": 2500})
     return cases
 
 
-FLOORS = {"quick": {"c14_routes": 25000, "c14_multi_link_routes": 20000}, "thorough": {"c14_routes": 600000, "c14_multi_link_routes": 500000}}
+FLOORS = {"quick": {"c14_routes": 25000, "c14_multi_link_routes": 20000, "c14_run_routes": 1000}, "thorough": {"c14_routes": 600000, "c14_multi_link_routes": 500000, "c14_run_routes": 20000}}
 
 
 def main(tier, seed):
